@@ -90,6 +90,65 @@ func runStopUnderTraffic(c StopCase) *ev.Failure {
 	return f
 }
 
+// StartStopCase: the documented usage is "go ap.Start()" followed, at some point, by "ap.Stop()".
+// Here Stop is called right away (HeadUs > 0: Stop even gets a head start of HeadUs microseconds
+// before Start is called, as happens when the goroutine that runs Start is scheduled late). Once
+// both calls have returned the process is stopped: a message offered to the channel is not taken.
+type StartStopCase struct {
+	Workers int `json:"workers"`
+	HeadUs  int `json:"head_us"`
+}
+
+func runStopOvertakesStart(c StartStopCase) *ev.Failure {
+	ch := make(chan *entities.Message)
+	ap := aggh.New(time.Hour, time.Hour, ch, c.Workers)
+	fl := []aggh.FlowDef{{Src: "10.0.0.1", Dst: "10.0.1.2", SPort: 1000, DPort: 80, Proto: 6, Kind: aggh.KindIntraNode}}
+	startDone, stopDone := make(chan struct{}), make(chan struct{})
+	if c.HeadUs > 0 {
+		go func() { ap.Stop(); close(stopDone) }()
+		time.Sleep(time.Duration(c.HeadUs) * time.Microsecond)
+		go func() { ap.Start(); close(startDone) }()
+	} else {
+		go func() { ap.Start(); close(startDone) }()
+		go func() { ap.Stop(); close(stopDone) }()
+	}
+	for _, w := range []chan struct{}{stopDone, startDone} {
+		select {
+		case <-w:
+		case <-time.After(10 * time.Second):
+			return ev.Failf("Start in one goroutine and Stop right away in another (%d workers, Stop's head start %d us): after 10 s one of the two calls has not returned", c.Workers, c.HeadUs)
+		}
+	}
+	r := aggh.Rec{Flow: 0, Side: "S", Start: 1000, End: 2000, Tot: [4]uint64{1, 1, 1, 1}, Dlt: [4]uint64{1, 1, 1, 1}}
+	taken := false
+	select {
+	case ch <- aggh.Message(fl, r):
+		taken = true
+	case <-time.After(150 * time.Millisecond):
+	}
+	if taken {
+		time.Sleep(20 * time.Millisecond)
+		return ev.Failf("Start in one goroutine and Stop right away in another (%d workers, Stop's head start %d us): both calls have returned, yet a message offered to the channel afterwards was taken by a worker (GetNumFlows = %d): Stop stopped nobody and the pool can no longer be stopped", c.Workers, c.HeadUs, ap.GetNumFlows())
+	}
+	return nil
+}
+
+func TestC13StopOvertakesStart(t *testing.T) {
+	if ev.Shard() > 1 {
+		return
+	}
+	n := int(rec.Scale(24, 600))
+	for k := 0; k < n; k++ {
+		c := StartStopCase{Workers: []int{1, 2, 4, 8}[k%4], HeadUs: []int{0, 0, 50, 1000, 50000, 0}[k%6]}
+		f := runStopOvertakesStart(c)
+		rec.Case(ev.Hash([]any{"stop_overtakes_start", c, k}), true, "stop_overtakes_start")
+		if f != nil {
+			rec.Violation("stop_overtakes_start", c, f.Msg)
+			t.Fatalf("%s", f.Msg)
+		}
+	}
+}
+
 func TestC13StopUnderTraffic(t *testing.T) {
 	if ev.Shard() > 1 {
 		return
